@@ -246,6 +246,38 @@ func init() {
 				stat("C16", "unmarshal-error")
 			}
 			fmt.Fprintf(out, "CASE\tC16\t%s\t%s\t1\n", sx.String(c), sx.String(obs))
+			// the source may be any ordered map, also one with history: the same live entries in a map that
+			// still carries tombstones (a deleted junk key, below the compaction threshold) must decode alike
+			if src, ok := a.(*ordered.MapSA); ok && src.Len() >= 2 && i%3 == 0 {
+				hist := ordered.NewMap[string, any](0)
+				pos := rng.Intn(src.Len())
+				j := 0
+				src.Range(func(k string, v any) error {
+					if j == pos {
+						hist.Set("zz-dead-key", "dead value")
+					}
+					hist.Set(k, v)
+					j++
+					return nil
+				})
+				hist.Delete("zz-dead-key")
+				dst2 := reflect.New(ty.t).Interface()
+				var uerr2 error
+				func() {
+					defer func() {
+						if r := recover(); r != nil {
+							uerr2 = fmt.Errorf("panic: %v", r)
+						}
+					}()
+					uerr2 = ordered.Unmarshal(hist, dst2)
+				}()
+				ob2, _ := json.Marshal(dst2)
+				if (uerr == nil) != (uerr2 == nil) || uerr == nil && string(ob2) != string(ob) {
+					oracleFail("C16", "tombstoned-source-differs", short, fmt.Sprintf("decoding the same entries from a map that carries a tombstone gives %s (err %v), from a fresh map %s (err %v)", ob2, uerr2, ob, uerr))
+					continue
+				}
+				stat("C16", "tombstoned-source")
+			}
 			// the matching rule, checked directly on the destination (top level, string fields, inline map):
 			// tag key if present, else the first present alias; every other key ends in the inline map
 			if uerr == nil && d.kind == 'm' {
